@@ -19,6 +19,7 @@ def load_def(name):
 
 def supported(d, cfg):
     """configurations a definition can be instantiated with (documented library limitations)."""
+    if cfg in gen.EXTRA_CONFIGS: return "back" in d.configs
     if cfg not in d.configs: return False
     has_smtab = any(m["smtab"] for m in d.machines.values())
     if cfg.startswith("back11") and has_smtab: return False     # back11 does not compile sm-internal tables with const events
